@@ -319,6 +319,9 @@ func isCost(key string) bool {
 
 func (gn *GlobalNode) set(key string, change string) error {
 	if isCost(key) {
+		if _, ok := Settings[key]; !ok {
+			return fmt.Errorf("unsupported key %v", key)
+		}
 		value, err := strconv.Atoi(change)
 		if err != nil {
 			return fmt.Errorf("cannot convert key %s value %v to int64: %v", key, change, err)
@@ -349,7 +352,7 @@ func (gn *GlobalNode) set(key string, change string) error {
 		if err != nil {
 			return fmt.Errorf("cannot convert key %s value %v to state.balance: %v", key, change, err)
 		}
-		coinV, err := currency.ParseZCN(value)
+		coinV, err := config.ParseZCN(value)
 		if err != nil {
 			return err
 		}
@@ -393,8 +396,8 @@ func (gn *GlobalNode) set(key string, change string) error {
 }
 
 func (gn *GlobalNode) update(changes config.StringMap) error {
-	for key, value := range changes.Fields {
-		if err := gn.set(key, value); err != nil {
+	for _, key := range config.SortedKeys(changes.Fields) {
+		if err := gn.set(key, changes.Fields[key]); err != nil {
 			return err
 		}
 	}
